@@ -738,6 +738,21 @@ func rulePoolBuffers(c *Ctx) {
 			return
 		}
 		fname := "pool." + funcName(fd)
+		// the rotation itself (the function that moves currentSlot) shifts every generation in each branch: rotate.order's business
+		rotates := false
+		ast.Inspect(fd.Body, func(nd ast.Node) bool {
+			if as, ok := nd.(*ast.AssignStmt); ok {
+				for _, l := range as.Lhs {
+					if sel, ok := ast.Unparen(l).(*ast.SelectorExpr); ok && sel.Sel.Name == "currentSlot" {
+						rotates = true
+					}
+				}
+			}
+			return true
+		})
+		if rotates {
+			return
+		}
 		for _, s := range cmpsIn(pk, fd, fname, nil, nil, nil, nil) {
 			if s.op != token.EQL || s.tn == nil {
 				continue
@@ -757,8 +772,8 @@ func rulePoolBuffers(c *Ctx) {
 					}
 				}
 			}
-			if cur == "" || other == "" || other == "-" || s.p[cur]*s.p[other] != -1 || !strings.HasSuffix(other, ".Slot") {
-				continue // (Reset compares with the new slot itself and moves every generation: rotate.order's business)
+			if cur == "" || other == "" || other == "-" || s.p[cur]*s.p[other] != -1 {
+				continue
 			}
 			d := -s.p[""] * s.p[cur] // currentSlot - slot
 			want := map[int64]string{1: "prev", 0: "current", -1: "next"}[d]
